@@ -30,6 +30,7 @@ def case_(draw, tier):
     N = draw(st.integers(1500, 6000))
     if draw(st.integers(0, 7)) == 7:
         N = draw(st.integers(60000, 150000))       # long record: segments of 1e4..1e5 samples at the low-frequency end
+        q = min(q, 2)                              # (a case costs about 15 q^2 analyses: minutes each for q=4 at this length)
     static = draw(st.integers(0, 3)) == 3
     return {"q": q, "N": N, "seed": draw(st.integers(0, 2 ** 31 - 1)),
             "sigma": 0.0 if static else draw(st.sampled_from([0.1, 1.0, 0.0])),
